@@ -171,16 +171,34 @@ func runSc(c ScCase) (res ScResult) {
 		res.Lazy = append(res.Lazy, ScLazy{Pat: mgjson.Atom{P: "open", A: []any{}}, R: []mgjson.Atom{}, Err: err.Error()})
 		return
 	}
-	for _, pat := range scPatterns(c, rnd) {
-		l := ScLazy{Pat: pat, R: []mgjson.Atom{}}
-		if err := lazy.GetFacts(mgjson.ASTAtom(pat), func(a ast.Atom) error {
-			l.R = append(l.R, mgjson.FromAtom(a))
-			return nil
-		}); err != nil {
-			l.Err = err.Error()
+	pats := scPatterns(c, rnd)
+	ask := func(st factstore.ReadOnlyFactStore) {
+		for _, pat := range pats {
+			l := ScLazy{Pat: pat, R: []mgjson.Atom{}}
+			if err := st.GetFacts(mgjson.ASTAtom(pat), func(a ast.Atom) error {
+				l.R = append(l.R, mgjson.FromAtom(a))
+				return nil
+			}); err != nil {
+				l.Err = err.Error()
+			}
+			res.Lazy = append(res.Lazy, l)
 		}
-		res.Lazy = append(res.Lazy, l)
 	}
+	ask(lazy)
+	// "writing any fact store": the lazy view itself is saved again (deterministically), the new file is read back
+	// eagerly, and the lazy view must still answer as before
+	var again bytes.Buffer
+	if err := (factstore.SimpleColumn{Deterministic: true}).WriteTo(lazy, &again); err != nil {
+		res.Lazy = append(res.Lazy, ScLazy{Pat: mgjson.Atom{P: "resave", A: []any{}}, R: []mgjson.Atom{}, Err: err.Error()})
+		return
+	}
+	ask(lazy)
+	resaved := factstore.NewMultiIndexedArrayInMemoryStore()
+	if err := (factstore.SimpleColumn{}).ReadInto(bytes.NewReader(again.Bytes()), resaved); err != nil {
+		res.Lazy = append(res.Lazy, ScLazy{Pat: mgjson.Atom{P: "reread_resaved", A: []any{}}, R: []mgjson.Atom{}, Err: err.Error()})
+		return
+	}
+	ask(resaved)
 	return
 }
 
